@@ -3,6 +3,7 @@
 from . import net
 
 CT_CCS, CT_ALERT, CT_HS, CT_APP, CT_HB = 20, 21, 22, 23, 24
+STAMP = [0]
 
 
 class SendTap(object):
@@ -21,9 +22,10 @@ class SendTap(object):
 
         def sendRecord(msg):
             data = msg.write()
+            STAMP[0] += 1
             tap.records.append([msg.contentType, len(data), tap.user_limit,
                                 tap.app_phase, bytes(data)
-                                if tap.keep_plain else None])
+                                if tap.keep_plain else None, STAMP[0]])
             return orig(msg)
         self.keep_plain = False
         rl.sendRecord = sendRecord
@@ -42,7 +44,7 @@ class SendTap(object):
                                                       len(wire), len(rp.buf)))
         protected = False
         for i, (rec, w) in enumerate(zip(self.records, wire)):
-            ctype, plen, ulim, app, _ = rec
+            ctype, plen, ulim, app = rec[:4]
             wtype, wver, body = w
             if ver < (3, 4):
                 if protected:
